@@ -14,6 +14,7 @@ import (
 	"errors"
 	"fmt"
 	"io"
+	"slices"
 )
 
 // A keyAgreement implements the client and server side of a TLS 1.0–1.2 key
@@ -295,6 +296,11 @@ func (ka *ecdheKeyAgreement) processServerKeyExchange(config *Config, clientHell
 
 	if _, ok := curveForCurveID(curveID); !ok {
 		return errors.New("tls: server selected unsupported curve")
+	}
+	// RFC 8422, Section 5.1.1: when the client sent supported_groups, the server must
+	// pick its ECDHE curve from that list (a client that sends none leaves the choice open).
+	if len(clientHello.supportedCurves) > 0 && !slices.Contains(clientHello.supportedCurves, curveID) {
+		return errors.New("tls: server selected a curve the client did not offer")
 	}
 
 	key, err := generateECDHEKey(config.rand(), curveID)
